@@ -23,6 +23,15 @@ func verifPlain(name string) byte {
 	return c
 }
 
+// verifPlainText: n characters that stand for themselves in both syntaxes
+func verifPlainText(name string, n int) string {
+	var out []byte
+	for i := 0; i < n; i++ {
+		out = append(out, verifPlain(name))
+	}
+	return string(out)
+}
+
 func verifCat(parts ...any) []byte {
 	var out []byte
 	for _, p := range parts {
@@ -52,8 +61,12 @@ func verifNative(src []byte, name string) (hcl.Body, bool) {
 // required attribute is present in all spellings or missing in all).
 func H_c19_equiv() {
 	hclsyntax.VerifRuneSeg = true
-	x, y, z := verifPlain("X"), verifPlain("Y"), verifPlain("Z")
-	hasA := nondet_bool("required-present")
+	// first choice = (required attribute present?) x (class of the first character of X): shards
+	slice := nondet_choice("present-x-class", 8)
+	hasA := slice%2 == 1
+	tl := verif_bound("equiv-text-len", 1, 2)
+	x, y, z := verifPlainText("X", tl), verifPlainText("Y", tl), verifPlainText("Z", tl)
+	verif_assume(int(x[0]>>5)-1 == slice/2) // 0x20-0x3f, 0x40-0x5f, 0x60-0x7e (class 3 is empty)
 	spec := hcldec.ObjectSpec{
 		"a": &hcldec.AttrSpec{Name: "a", Type: cty.String, Required: true},
 		"n": &hcldec.AttrSpec{Name: "n", Type: cty.Number},
@@ -103,14 +116,14 @@ func H_c19_equiv() {
 		if i == 0 {
 			first = v
 			// the value itself
-			verif_assert(v.GetAttr("a").AsString() == string([]byte{x}), "attribute a decodes to its text")
+			verif_assert(v.GetAttr("a").AsString() == x, "attribute a decodes to its text")
 			big65, _ := cty.ParseNumberVal("18446744073709551617") // 2^64+1: needs more than 64 bits of mantissa
 			verif_assert(v.GetAttr("n").RawEquals(big65), "attribute n decodes to its number, exactly")
 			bl := v.GetAttr("b")
 			verif_assert(bl.LengthInt() == 2, "both blocks are decoded")
 			if bl.LengthInt() == 2 {
-				verif_assert(bl.Index(cty.NumberIntVal(0)).GetAttr("c").AsString() == string([]byte{y}), "first block, in order")
-				verif_assert(bl.Index(cty.NumberIntVal(1)).GetAttr("c").AsString() == string([]byte{z}), "second block, in order")
+				verif_assert(bl.Index(cty.NumberIntVal(0)).GetAttr("c").AsString() == y, "first block, in order")
+				verif_assert(bl.Index(cty.NumberIntVal(1)).GetAttr("c").AsString() == z, "second block, in order")
 			}
 		} else {
 			verif_assert(v.RawEquals(first), "an equivalent spelling decodes to the same value")
